@@ -1,0 +1,16 @@
+//go:build verif
+
+// Contracts for the verification machinery in /verif (comment-only; no declarations).
+// C13: the in-memory key book stores a public key under a peer ID only if the ID matches the key
+// (second line of defence behind identify's consumeReceivedPubKey).
+
+package pstoremem
+
+//@ func (mkb *memoryKeyBook) AddPubKey
+//@ prop C13
+//@ ensures result == nil ==> called(MatchesPublicKey, 0) && ret(MatchesPublicKey, 0, 0) &&
+//@         arg(MatchesPublicKey, 0, 0) == p && arg(MatchesPublicKey, 0, 1) == pk
+//@ ensures result == nil ==> has(mkb.pks, p) && mkb.pks[p] == pk
+//@ ensures result != nil ==> (has(mkb.pks, p) <==> old(has(mkb.pks, p))) && mkb.pks[p] == old(mkb.pks[p])
+//@ ensures forall q peer.ID :: q != p ==> (has(mkb.pks, q) <==> old(has(mkb.pks, q))) && mkb.pks[q] == old(mkb.pks[q])
+//@ modifies contents(mkb.pks)
